@@ -106,7 +106,13 @@ pub trait AbstractTree {
 
         drop(version_history);
 
+        #[cfg(feature = "verif")]
+        crate::verif::yield_point("flush:collected");
+
         if let Some((tables, blob_files)) = self.flush_to_tables(stream)? {
+            #[cfg(feature = "verif")]
+            crate::verif::yield_point("flush:before_register");
+
             self.register_tables(
                 &tables,
                 blob_files.as_deref(),
